@@ -85,7 +85,7 @@ class NonConforming(Exception):
     pass
 
 
-def encode_value(types, type_string, v):
+def encode_value(types, type_string, v, cache=None):
     t = parse_type(type_string)
     k = t[0]
     if k == "bool":
@@ -121,23 +121,29 @@ def encode_value(types, type_string, v):
             raise NonConforming("array")
         if t[2] is not None and len(v) != t[2]:
             raise NonConforming("array size")
-        return keccak256(b"".join(encode_value(types, t[1], e) for e in v))
+        return keccak256(b"".join(encode_value(types, t[1], e, cache) for e in v))
     # struct
     if not isinstance(v, dict):
         raise NonConforming("struct")
-    return hash_struct(types, t[1], v)
+    return hash_struct(types, t[1], v, cache)
 
 
-def hash_struct(types, name, value):
+def hash_struct(types, name, value, cache=None):
+    """cache: optional dict reused across calls on the *same* types (type hashes only)."""
     if name not in types:
         raise Undefined(name)
     members = types[name]
     names = [mn for mn, _ in members]
-    buf = type_hash(types, name)
+    if cache is not None and name in cache:
+        buf = cache[name]
+    else:
+        buf = type_hash(types, name)
+        if cache is not None:
+            cache[name] = buf
     for mn, ts in members:
         if mn not in value:
             raise NonConforming("missing member " + mn)
-        buf += encode_value(types, ts, value[mn])
+        buf += encode_value(types, ts, value[mn], cache)
     if set(value) - set(names):
         raise NonConforming("undeclared member")
     return keccak256(buf)
